@@ -1,5 +1,6 @@
 CONSTANTS PollutedDedup = FALSE
  BadCallsExempt = FALSE
+ DottedExempt = FALSE
 SPECIFICATION TSpec
 INVARIANT Report
 CHECK_DEADLOCK FALSE
